@@ -24,7 +24,9 @@ RULE = (
     "listed small domains; all ordered same-family pairs (thorough: all cross-family pairs too) of independently "
     "constructed, uncached instances; for every pair with a == b or b == a (evaluated before and after hashing): "
     "hash(a) == hash(b), identical match outcome on every universe element, caching_repo / lru_cache consumers return "
-    "b's own answer after being primed with a. One evaluation = one ordered pair. A class is (family, equal?, same "
+    "b's own answer after being primed with a. Query histories: every sequence of 3 (thorough: 4) queries from a 13-symbol "
+    "alphabet against one caching_repo, each step with a freshly constructed restriction whose previous owner is gone, "
+    "each answer compared with the uncached repository. One evaluation = one ordered pair or one query sequence. A class is (family, equal?, same "
     "constructor arguments?, hash agreement, match agreement)."
 )
 ASSUMPTIONS = [
@@ -37,9 +39,11 @@ ASSUMPTIONS = [
     "argument domains are the small ones listed in BOUNDS; restrictions outside the listed families (FlatteningRestriction, FunctionRestriction, AnyMatch, GetAttrRestriction, fetchables, glsa restrictions) are not covered",
 ]
 BOUNDS = {
-    "quick": "9 families, 1504 objects (_VersionMatch 384 = 6 ops x 4 versions x 8 revision spellings x negate, VersionMatch 384, value matchers 160, "
-    "_UseDepDefaultContainment 20, PackageRestriction family 210, Conditional 48, boolean nodes 156, atoms 100, DepSets 42); all 403k ordered same-family pairs",
-    "thorough": "same objects; additionally all 1.86M ordered cross-family pairs",
+    "quick": "9 families, 1528 objects (_VersionMatch 384 = 6 ops x 4 versions x 8 revision spellings x negate, VersionMatch 384, value matchers 160, "
+    "_UseDepDefaultContainment 20, PackageRestriction family 210, Conditional 48, boolean nodes 156, atoms 124 incl. '=*' globs over numerically equal "
+    "version spellings, DepSets 42); all 409k ordered same-family pairs over a 163-package universe; 416 incremental-build histories; all 13^3 = 2197 "
+    "fresh-object query sequences against one caching_repo",
+    "thorough": "same objects; additionally all ~1.9M ordered cross-family pairs and all 13^4 = 28561 query sequences",
 }
 
 # ----------------------------------------------------------------------------------------------
@@ -146,6 +150,7 @@ ATOMS = [
     "a/b[x?]", "a/b[!x?]", "a/b[x=]", "a/b[!x=]", "a/b[x?,y]", "a/b[y,x?]",
     "=a/b-1[x]", "=a/b-1.0[x]", "~a/b-1[x]", ">=a/b-1:0", ">=a/b-1:0[x,y]", ">=a/b-1:0[y,x]", "=a/b-1-r0:0", "=a/b-1:0", "=a/b-1_p1", "=a/b-1_p1-r0",
     "=a/b-2", "~a/b-2", "<a/b-1", "<=a/b-1-r1", ">a/b-1-r1", "=a/b-1.0-r1", "=a/b-1.0*", "=a/b-1-r1*",
+    "=a/b-1-r0*", "=a/b-1.00*", "=a/b-1.0-r0*", "=a/b-01*", "=a/b-1.0*:0", "=a/b-1.00*:0", "=a/b-1*[x]", "=a/b-1-r0*[x]", "=a/b-1.00", "=a/b-1.00-r0", "~a/b-1.00", "=a/b-01",
     "a/b:0", "a/b:1", "a/b:0=", "a/b:0/2", "a/b:1/2", "a/b:1/2=", "a/b:=", "a/b:*", "a/b::r", "a/b:0::r", "a/b:0[x]", "!a/b:0", "!!a/b:0",
 ]  # fmt: skip
 
@@ -208,6 +213,11 @@ def tasks(tier):
     nb = len([x for x in specs("bool") if x[1] != "Keyed"])
     for lo in range(0, nb, 24):
         out.append(("incr", "bool", lo, min(nb, lo + 24)))
+    nq = len(QUERIES)
+    if tier == "quick":
+        out += [("seq", 3, i, 0) for i in range(nq)]
+    else:
+        out += [("seq", 4, i, j) for i in range(nq) for j in range(nq)]
     if tier == "thorough":
         n = len(all_specs())
         step = 8
@@ -364,6 +374,9 @@ def universe(name):
                     n += 1
                     kw = {"repo": repo_r} if n % 5 == 0 else {}
                     u.append(FakePkg(cpv, slot=slot, subslot=sub, iuse=iuse, use=use, **kw))
+        for cpv in ["a/b-1.0.1", "a/b-1.00.1", "a/b-1.00", "a/b-1-r0", "a/b-1.0-r0", "a/b-10", "a/b-01", "a/b-01.5", "a/b-1.0.1-r1"]:
+            for iuse, use in (((), ()), (("x", "y"), ("x",))):
+                u.append(FakePkg(cpv, slot="0", iuse=iuse, use=use))
         u.append(Bare())
     elif name == "none":
         u = []
@@ -570,12 +583,112 @@ def check_incremental(spec, split):
     return out
 
 
+# Query alphabet for the operation-sequence exploration of the restriction-keyed query cache.  Same-class symbols
+# (several atoms, several PackageRestrictions, several boolean nodes) so that an object freed after one step and the
+# object built for the next step compete for the same allocation size; equal-but-differently-written pairs included.
+QUERIES = [
+    ["atom", "atom", "a/b", 0],
+    ["atom", "atom", "c/d", 0],
+    ["atom", "atom", "a/d", 0],
+    ["atom", "atom", "=a/b-1*", 0],
+    ["atom", "atom", "=a/b-1-r0*", 0],
+    ["atom", "atom", "a/b[x,y]", 0],
+    ["atom", "atom", "a/b[y,x]", 0],
+    ["pr", "CategoryDep", "a", 0],
+    ["pr", "PackageDep", "d", 0],
+    ["pr", "PackageDep", "b", 0],
+    ["bool", "A", 0, "package", [0, 1]],
+    ["bool", "O", 0, "package", [0, 1]],
+    ["bool", "A", 0, "package", [1, 0]],
+]
+SEQ_REPS = {"work": 2, "replay": 25}
+
+
+def _fresh_query(cache, spec):
+    """Build a brand-new restriction for spec, ask the cache, let the restriction die on return.
+    Nothing but the cache itself may keep a reference to it."""
+    r = make(spec)
+    return [id(p) for p in cache.match(r)]
+
+
+_answers = {}
+
+
+def _uncached_answer(spec, repo):
+    key = json.dumps(spec)
+    v = _answers.get(key)
+    if v is None:
+        v = _answers[key] = [id(p) for p in repo.itermatch(make(spec))]
+    return v
+
+
+_seq_repo = []
+
+
+def check_sequence(seq, reps):
+    """One caching_repo per repetition; every step queries it with a fresh object (the previous step's object is
+    already dropped) and the answer must be the uncached repository's answer for *that* restriction.
+    -> list of (what, msg)"""
+    import gc
+
+    from pkgcore.repository.misc import caching_repo
+    from pkgcore.test.misc import FakeRepo
+
+    if not _seq_repo:
+        _seq_repo.append(FakeRepo(pkgs=[p for p in universe("pkg") if not isinstance(p, Bare)]))
+    repo = _seq_repo[0]
+    want = [_uncached_answer(spec, repo) for spec in seq]
+    gc.collect()
+    was = gc.isenabled()
+    gc.disable()  # objects die by refcount the moment a step returns; no collector run may move that point
+    try:
+        for rep_no in range(reps):
+            cache = caching_repo(repo, iter)
+            for i, spec in enumerate(seq):
+                got = _fresh_query(cache, spec)
+                if got != want[i]:
+                    hist = " ; ".join(show(x) for x in seq[: i + 1])
+                    return [
+                        (
+                            "seq",
+                            f"caching_repo queried with fresh objects [{hist}]: step {i + 1} ({show(spec)}) got {len(got)} packages, "
+                            f"{len(set(got) ^ set(want[i]))} of them differ from the uncached repository's {len(want[i])} (repetition {rep_no + 1})",
+                        )
+                    ]
+    finally:
+        if was:
+            gc.enable()
+    return []
+
+
+def seq_pattern(seq):
+    names = {}
+    return "".join(names.setdefault(json.dumps(x), "abcd"[len(names)]) for x in seq)
+
+
 def work(task):
     mode, fam, lo, hi = task
     evals = 0
     classes = {}
     buckets = {}
     samples = []
+    if mode == "seq":
+        depth, first, second = fam, lo, hi
+        viol = []
+        prefixes = [[QUERIES[first]]] if depth == 3 else [[QUERIES[first], QUERIES[second]]]
+        for pre in prefixes:
+            for tail in itertools.product(QUERIES, repeat=depth - len(pre)):
+                seq = pre + list(tail)
+                evals += 1
+                res = check_sequence(seq, SEQ_REPS["work"])
+                k = f"seq:{seq_pattern(seq)}:{'ok' if not res else 'wrong-answer'}"
+                classes[k] = classes.get(k, 0) + 1
+                for what, msg in res:
+                    viol.append({"a": seq, "b": ["seq"], "what": what, "msg": msg})
+                if len(samples) < 1 and len({json.dumps(x) for x in seq}) > 1:
+                    samples.append({"query_sequence": [show(x) for x in seq], "each_step_fresh_object": True})
+        viol.sort(key=_size)
+        return {"evals": evals, "classes": classes, "viol": viol[:24], "samples": samples, "counters": {"query_sequences": evals, "cache_queries": evals * depth}}
     if mode == "incr":
         viol = []
         for spec in [x for x in specs("bool") if x[1] != "Keyed"][lo:hi]:
@@ -628,6 +741,8 @@ def _size(c):
 
 
 def replay(case):
+    if case["what"] == "seq":
+        return [msg.split(" (repetition")[0] for what, msg in check_sequence(case["a"], SEQ_REPS["replay"])]
     if case["what"].startswith("incr-"):
         return [msg for what, msg in check_incremental(case["a"], case["b"][1]) if what == case["what"]]
     return [msg for what, msg in check_pair(case["a"], case["b"]) if what == case["what"]]
